@@ -446,7 +446,76 @@ func directedNewViewValidation(rep *Report, seed int64) {
 	}
 }
 
+// a worker parked in an SPI call does not stop the main loop from taking syncs and election triggers, however many
+// messages arrive meanwhile (the worker's inbox holds 1000; what does not fit is dropped, not waited for)
+func directedInboxFlood(rep *Report, seed int64) {
+	d := newDirectedNode(seed)
+	fail := func(prop, sig, detail string) { rep.finding(prop, sig, detail, d.replay()) }
+	defer func() {
+		if !d.stop() {
+			fail("C16", "shutdown-hangs", "directed flood scenario: WaitUntilShutdown did not return")
+		}
+	}()
+	rep.count("runtime:directed-inbox-flood")
+	go d.lh.UpdateState(d.ctx, nil, nil)
+	if !d.waitFor("NR", 1, 0, 3*time.Second) {
+		fail("C14", "sync-no-effect", "directed: UpdateState(genesis) did not start height 1")
+		return
+	}
+	gate := d.utils.setGate()
+	var opened int32
+	open := func() {
+		if atomic.CompareAndSwapInt32(&opened, 0, 1) {
+			close(gate)
+		}
+	}
+	defer open()
+	go d.lh.HandleConsensusMessage(d.ctx, d.preprepare(1, 0, 1, 778))
+	if !d.waitFor("SPI+validate", 1, 0, 3*time.Second) {
+		rep.count("runtime:directed-setup-failed")
+		return
+	}
+	// 1300 well-formed messages while the worker cannot take any
+	flood := make(chan struct{})
+	go func() {
+		defer close(flood)
+		for i := 0; i < 1300; i++ {
+			m := d.cdc.encode(&aMsg{Kind: "P", Ref: aRef{Type: uint64(protocol.LEAN_HELIX_PREPARE), Inst: rtInst, Height: 1, View: 0, Hash: 778}, Snd: aSig{Id: uint64(2 + i%2), Ok: true}})
+			c, cancel := context.WithTimeout(d.ctx, 2*time.Second)
+			d.lh.HandleConsensusMessage(c, m)
+			cancel()
+		}
+	}()
+	select {
+	case <-flood:
+	case <-time.After(4 * time.Second):
+		fail("C14", "main-loop-blocked", "directed: the main loop stopped taking messages while the worker was inside an SPI call (more messages than the worker's inbox holds)")
+		return
+	}
+	res := make(chan error, 1)
+	go func() { res <- d.lh.UpdateState(d.ctx, &vblock{height: 3, id: 9003}, d.cdc.syncProof(3)) }()
+	select {
+	case err := <-res:
+		if err != nil {
+			fail("C14", "sync-no-effect", fmt.Sprintf("directed: UpdateState(block 3) after a message flood returned %v", err))
+			return
+		}
+	case <-time.After(2 * time.Second):
+		fail("C14", "updatestate-blocked", "directed: UpdateState(block 3) did not return within 2s after more messages arrived than the busy worker's inbox holds")
+		return
+	}
+	open()
+	deadline := time.Now().Add(3 * time.Second)
+	for time.Now().Before(deadline) && uint64(d.lh.State().Height()) < 4 {
+		time.Sleep(time.Millisecond)
+	}
+	if h := uint64(d.lh.State().Height()); h != 4 {
+		fail("C14", "sync-no-effect", fmt.Sprintf("directed: UpdateState(block 3) returned nil after a message flood; the node ended at height %d instead of 4", h))
+	}
+}
+
 func runDirected(rep *Report, seed int64, thorough bool) {
+	directedInboxFlood(rep, seed+102)
 	directedFutureViewProposal(rep, seed+100)
 	directedNewViewValidation(rep, seed+101)
 	gaps := []time.Duration{0, 2 * time.Millisecond, 10 * time.Millisecond}
